@@ -1,3 +1,150 @@
-//! C01 — not built yet.
+//! C01 / C02 / C08 — `Linearizer::linearize` on generated source models.
+//! Model request: the source model plus the bounds the real analyzer derived (through the hook), so that the
+//! linearizer port is validated independently of the bounds port; `linearize-full` re-derives them in the model.
 use crate::case::Case;
-pub fn generate(_seed: u64, _n: usize, _thorough: bool, _corpus: Option<&str>) -> Vec<Case> { vec![] }
+use crate::gen_model::{self, ModelCfg};
+use crate::rng::Rng;
+use crate::sx;
+use rooc::model_transformer::{Exp, Model};
+use rooc::{LinearizationError, Linearizer};
+
+pub fn lin_error(e: &LinearizationError) -> String {
+    match e {
+        LinearizationError::NonLinearExpression(_) => "(err NonLinearExpression)".into(),
+        LinearizationError::DivisionByZero(_) => "(err DivisionByZero)".into(),
+        LinearizationError::EmptyAggregation(k) => format!("(err EmptyAggregation {})", sx::q(k)),
+        LinearizationError::VarAlreadyDeclared(n) => format!("(err VarAlreadyDeclared {})", sx::q(n)),
+        LinearizationError::UnimplementedExpression(_) => "(err UnimplementedExpression)".into(),
+        LinearizationError::NonBinaryLogicOperand(_) => "(err NonBinaryLogicOperand)".into(),
+        LinearizationError::MissingFiniteBounds { variables, .. } => {
+            format!("(err MissingFiniteBounds ({}))", variables.iter().map(|v| sx::q(v)).collect::<Vec<_>>().join(" "))
+        }
+    }
+}
+
+pub fn bounds_sx(m: &Model) -> (String, String) {
+    let rep = rooc::verif_hooks::linearizer_bounds(m.domain(), m.constraints());
+    let b = rep.variables.iter().map(|(n, lo, hi)| format!("({} (b {} {}))", sx::q(n), sx::num(*lo), sx::num(*hi))).collect::<Vec<_>>().join(" ");
+    (format!("(bounds{}{})", if b.is_empty() { "" } else { " " }, b), sx::domain(&rep.domain))
+}
+
+fn is_bool_var(m: &Model, n: &str) -> bool {
+    matches!(m.domain().get(n).map(|d| *d.get_type()), Some(rooc::VariableType::Boolean))
+}
+
+/// does some and/or node collapse (by `simplify`) to a single operand that is not a 0/1 expression?
+fn collapses_nonbinary(e: &Exp, m: &Model) -> bool {
+    use rooc::BinOp;
+    let here = match e {
+        Exp::And(_) | Exp::Or(_) | Exp::BinOp(BinOp::And, _, _) | Exp::BinOp(BinOp::Or, _, _) => {
+            match e.simplify() {
+                Exp::And(_) | Exp::Or(_) | Exp::Number(_) | Exp::Not(_) | Exp::Xor(_, _) | Exp::Implies(_, _) | Exp::Iff(_, _) => false,
+                Exp::Variable(n) => !is_bool_var(m, &n),
+                _ => true,
+            }
+        }
+        _ => false,
+    };
+    here || match e {
+        Exp::Number(_) | Exp::Variable(_) => false,
+        Exp::Abs(e) | Exp::Not(e) | Exp::UnOp(_, e) => collapses_nonbinary(e, m),
+        Exp::Min(es) | Exp::Max(es) | Exp::And(es) | Exp::Or(es) => es.iter().any(|e| collapses_nonbinary(e, m)),
+        Exp::Xor(a, b) | Exp::Implies(a, b) | Exp::Iff(a, b) | Exp::BinOp(_, a, b) => collapses_nonbinary(a, m) || collapses_nonbinary(b, m),
+    }
+}
+
+fn has_nonfinite_literal(e: &Exp) -> bool {
+    match e {
+        Exp::Number(v) => !v.is_finite(),
+        Exp::Variable(_) => false,
+        Exp::Abs(e) | Exp::Not(e) | Exp::UnOp(_, e) => has_nonfinite_literal(e),
+        Exp::Min(es) | Exp::Max(es) | Exp::And(es) | Exp::Or(es) => es.iter().any(has_nonfinite_literal),
+        Exp::Xor(a, b) | Exp::Implies(a, b) | Exp::Iff(a, b) | Exp::BinOp(_, a, b) => has_nonfinite_literal(a) || has_nonfinite_literal(b),
+    }
+}
+
+/// root-cause flags used to match known findings narrowly
+pub fn flags(m: &Model) -> Vec<String> {
+    let mut f = vec![];
+    let rep = rooc::verif_hooks::linearizer_bounds(m.domain(), m.constraints());
+    for (n, lo, hi) in &rep.variables {
+        if is_bool_var(m, n) && m.domain()[n].is_used() && (*lo != 0.0 || *hi != 1.0) { f.push("boolean-derived-range".to_string()); break; }
+    }
+    let exps: Vec<&Exp> = std::iter::once(&m.objective().rhs).chain(m.constraints().iter().flat_map(|c| [c.lhs(), c.rhs()])).collect();
+    if exps.iter().any(|e| collapses_nonbinary(&e.clone().clone().flatten(), m)) { f.push("nary-singleton-nonbinary".into()); }
+    if exps.iter().any(|e| has_nonfinite_literal(e)) { f.push("nonfinite-literal".into()); }
+    f
+}
+
+pub fn one(m: &Model, tag: &str, prop: &str) -> Case {
+    let mut c = Case::default();
+    let fl = flags(m);
+    if !fl.is_empty() { c.sig = Some(fl.join(",")); }
+    let msx = sx::model(m);
+    let (bsx, dsx) = bounds_sx(m);
+    c.req = format!("linearize {} {} {}", msx, bsx, dsx);
+    c.show = format!("{}", m).replace('\n', " ; ");
+    let res = std::panic::catch_unwind(std::panic::AssertUnwindSafe(|| Linearizer::linearize(m.clone())));
+    match res {
+        Ok(Ok(lm)) => {
+            c.imp = format!("(ok {})", sx::lin_model(&lm));
+            c.nontrivial = lm.variables().iter().any(|v| v.starts_with('$'));
+            c.tags = vec![tag.into(), "compiled".into(), if c.nontrivial { "aux".into() } else { "no-aux".into() }];
+            for v in lm.variables() {
+                if let Some(k) = v.strip_prefix('$') { c.tags.push(format!("aux:{}", k.split('_').next().unwrap_or(""))); }
+            }
+            c.tags.sort(); c.tags.dedup();
+            c.oracle = format!("{} {} {}", prop, msx, sx::lin_model(&lm));
+        }
+        Ok(Err(e)) => {
+            c.imp = lin_error(&e);
+            c.tags = vec![tag.into(), format!("err:{}", c.imp.split(|ch| ch == ' ' || ch == ')').nth(1).unwrap_or(""))];
+        }
+        Err(p) => {
+            let msg = p.downcast_ref::<String>().cloned().or_else(|| p.downcast_ref::<&str>().map(|s| s.to_string())).unwrap_or_default();
+            c.imp = "(panic)".into();
+            c.impl_violation = Some(format!("Linearizer::linearize panicked: {}", msg));
+            c.tags = vec![tag.into(), "panic".into()];
+        }
+    }
+    c
+}
+
+pub fn configs() -> Vec<(&'static str, ModelCfg)> {
+    vec![
+        ("affine", ModelCfg { max_vars: 3, depth: 2, logic: false, piecewise: false, unbounded: true, fractional: true, strict_cmp: true, hostile: false }),
+        ("piecewise", ModelCfg { max_vars: 3, depth: 2, logic: false, piecewise: true, unbounded: false, fractional: false, strict_cmp: true, hostile: false }),
+        ("piecewise-frac", ModelCfg { max_vars: 3, depth: 3, logic: false, piecewise: true, unbounded: true, fractional: true, strict_cmp: true, hostile: false }),
+        ("logic", ModelCfg { max_vars: 4, depth: 2, logic: true, piecewise: false, unbounded: false, fractional: false, strict_cmp: true, hostile: false }),
+        ("mixed", ModelCfg { max_vars: 4, depth: 3, logic: true, piecewise: true, unbounded: false, fractional: false, strict_cmp: true, hostile: false }),
+        ("hostile", ModelCfg { max_vars: 4, depth: 3, logic: true, piecewise: true, unbounded: true, fractional: false, strict_cmp: true, hostile: true }),
+        ("piecewise-unbounded", ModelCfg { max_vars: 3, depth: 2, logic: false, piecewise: true, unbounded: true, fractional: false, strict_cmp: false, hostile: false }),
+        ("deep-piecewise", ModelCfg { max_vars: 2, depth: 4, logic: false, piecewise: true, unbounded: false, fractional: false, strict_cmp: false, hostile: false }),
+    ]
+}
+
+pub fn generate_for(prop: &str, seed: u64, n: usize, _thorough: bool, _corpus: Option<&str>) -> Vec<Case> {
+    let mut r = Rng::new(seed);
+    let cfgs = configs();
+    let mut out = vec![];
+    for m in crate::corpus_models::models() { out.push(one(&m, "corpus", prop)); }
+    for i in 0..n {
+        let (tag, cfg) = &cfgs[i % cfgs.len()];
+        let (m, _) = gen_model::model(&mut r, cfg);
+        let c = one(&m, tag, prop);
+        // the same model through the COMPOSED model (bounds port + linearizer port), every third case
+        if i % 3 == 0 {
+            let mut f = c.clone();
+            f.req = format!("linearize-full {} {}", sx::model(&m), sx::num(1e-9));
+            f.oracle = String::new();
+            f.tags.push("full-pipeline".into());
+            out.push(f);
+        }
+        out.push(c);
+    }
+    out
+}
+
+pub fn generate(seed: u64, n: usize, thorough: bool, corpus: Option<&str>) -> Vec<Case> {
+    generate_for("c01", seed, n, thorough, corpus)
+}
